@@ -9,10 +9,10 @@ def n_of(c, quick, thorough):
 
 
 def c03(tier=None):
-    c = Check("C03", ["Wasp.Properties.C03", "Wasp.Properties.C02Pool", "Wasp.Properties.C02E2E", "Wasp.Properties.C06", "Wasp.Properties.C04", "Wasp.Properties.Facts.C03"], tier)
+    c = Check("C03", ["Wasp.Properties.Facts.Wiring", "Wasp.Properties.C03", "Wasp.Properties.C02Pool", "Wasp.Properties.C02E2E", "Wasp.Properties.C06", "Wasp.Properties.C04", "Wasp.Properties.Facts.C03"], tier)
     c.build()
     samples = []
-    scs = brokerlib.corpus(c.rng, ["slow-qos2", "wrong-type-ack", "inbound-outbound-id", "ids-return-after-recipient-vanished"])
+    scs = brokerlib.corpus(c.rng, ["slow-qos2", "wrong-type-ack", "inbound-outbound-id", "ids-return-after-recipient-vanished", "takeover-with-unacked-delivery"])
     scs += [gen_retransmit(c.rng, c.rng.choice([1, 1, 2])) for _ in range(n_of(c, 14, 200))]
     run_scenarios(c, "retransmission-scripts", scs, samples)
     from checks import writerlib
@@ -20,25 +20,30 @@ def c03(tier=None):
     # "at the first sweep after its deadline": the real ack.Queue under real (not synthetic) sweep times
     from checks import c04
     c04.add_queue_suites(c, samples, exhaustive_n=2, n_random=n_of(c, 600, 10000))
+    c04.add_concurrent_suite(c, samples)
     c.assumptions += ["acknowledgement deadlines are driven by synthetic sweeps (ack.Queue.Expire with a time past every armed deadline)"]
     return c.finish(samples=samples, rule="case = one script of deliveries left unacknowledged, sweeps and client answers (right ack, wrong type, wrong id, silence, disconnect) over 1-3 subscribers")
 
 
 def c05(tier=None):
-    c = Check("C05", ["Wasp.Properties.C05", "Wasp.Properties.C04", "Wasp.Properties.Facts.C05"], tier)
+    c = Check("C05", ["Wasp.Properties.Facts.Wiring", "Wasp.Properties.C05", "Wasp.Properties.C05C12E2E", "Wasp.Properties.C04", "Wasp.Properties.Facts.C05"], tier)
     c.build()
     samples = []
-    scs = brokerlib.corpus(c.rng, ["inbound-outbound-id", "same-client-id-overlapping-qos2"])
+    scs = brokerlib.corpus(c.rng, ["inbound-outbound-id", "same-client-id-overlapping-qos2", "late-pubrel-after-timeout"])
     scs += [gen_faults(c.rng, c.rng.choice([1, 2, 3, 3])) for _ in range(n_of(c, 24, 300))]
     run_scenarios(c, "publish-under-write-failures", scs, samples)
+    # the handshake table is the ack queue: its timers under real (sub-second) deadlines and sweep times
+    from checks import c04
+    c04.add_queue_suites(c, samples, exhaustive_n=2, n_random=n_of(c, 600, 10000))
     return c.finish(samples=samples, rule="case = one placement of subscribers over 1-3 nodes with 3-8 publishes (QoS 0/1/2, repeated PUBREL), each under a fresh pattern of local-log and remote-node write failures")
 
 
 def c14(tier=None):
-    c = Check("C14", ["Wasp.Properties.C14", "Wasp.Properties.Reachable2", "Wasp.Properties.E2EMulti", "Wasp.Properties.Facts.C14"], tier)
+    c = Check("C14", ["Wasp.Properties.Facts.Wiring", "Wasp.Properties.C14", "Wasp.Properties.Reachable2", "Wasp.Properties.E2EMulti", "Wasp.Properties.Facts.C14"], tier)
     c.build()
     samples = []
-    scs = [gen_faults(c.rng, c.rng.choice([2, 3, 3])) for _ in range(n_of(c, 20, 250))]
+    scs = brokerlib.corpus(c.rng, ["broken-recipient"])
+    scs += [gen_faults(c.rng, c.rng.choice([2, 3, 3])) for _ in range(n_of(c, 20, 250))]
     run_scenarios(c, "cross-node-placement-and-unreachable-subsets", scs, samples)
     scs = [gen_converged(c.rng, c.rng.choice([2, 3]), 1, c.rng.choice([10, 16]), {"pub": 8, "sub": 4}) for _ in range(n_of(c, 6, 80))]
     run_scenarios(c, "cross-node-routing", scs, samples)
@@ -46,7 +51,7 @@ def c14(tier=None):
 
 
 def c11(tier=None):
-    c = Check("C11", ["Wasp.Properties.C11", "Wasp.Properties.C11Time", "Wasp.Properties.Reachable", "Wasp.Properties.C09", "Wasp.Properties.C08", "Wasp.Properties.Facts.C11"], tier)
+    c = Check("C11", ["Wasp.Properties.Facts.Wiring", "Wasp.Properties.C11", "Wasp.Properties.C11Time", "Wasp.Properties.Reachable", "Wasp.Properties.C09", "Wasp.Properties.C08", "Wasp.Properties.Facts.C11"], tier)
     c.build()
     samples = []
     scs = [gen_lifecycle(c.rng, c.rng.choice([1, 2, 3]), 1, takeover=0.15) for _ in range(n_of(c, 12, 160))]
@@ -60,19 +65,19 @@ def c11(tier=None):
 
 
 def c12(tier=None):
-    c = Check("C12", ["Wasp.Properties.C12", "Wasp.Properties.Facts.C12"], tier)
+    c = Check("C12", ["Wasp.Properties.Facts.Wiring", "Wasp.Properties.C12", "Wasp.Properties.C05C12E2E", "Wasp.Properties.Facts.C12"], tier)
     c.build()
     samples = []
     scs = [gen_lifecycle(c.rng, c.rng.choice([1, 2, 2]), 1, takeover=0.6) for _ in range(n_of(c, 12, 160))]
     run_scenarios(c, "takeover-converged", scs, samples)
-    scs = brokerlib.corpus(c.rng, ["takeover-out-of-order", "removal-overtakes-creation"])
+    scs = brokerlib.corpus(c.rng, ["takeover-out-of-order", "removal-overtakes-creation", "takeover-then-stale-snapshot", "takeover-with-unacked-delivery"])
     scs += [gen_lifecycle(c.rng, c.rng.choice([2, 3]), 1, takeover=0.5, fine_gossip=True) for _ in range(n_of(c, 8, 120))]
     run_scenarios(c, "takeover-gossip-schedules", scs, samples)
     return c.finish(samples=samples, rule="case = one script with pairs / chains of connections sharing a client identifier on the same or different nodes, old-session ping / subscribe / disconnect and gossip deliveries interleaved")
 
 
 def c13(tier=None):
-    c = Check("C13", ["Wasp.Properties.C13", "Wasp.Properties.E2ERetainWill", "Wasp.Properties.Facts.C13"], tier)
+    c = Check("C13", ["Wasp.Properties.Facts.Wiring", "Wasp.Properties.C13", "Wasp.Properties.E2ERetainWill", "Wasp.Properties.Facts.C13"], tier)
     c.build()
     samples = []
     scs = [gen_converged(c.rng, c.rng.choice([1, 2, 3]), 1, c.rng.choice([8, 12]), {"end": 5, "connect": 4, "sub": 4, "pub": 2}) for _ in range(n_of(c, 12, 160))]
@@ -82,7 +87,7 @@ def c13(tier=None):
 
 
 def c17(tier=None):
-    c = Check("C17", ["Wasp.Properties.C17", "Wasp.Properties.C17E2E", "Wasp.Proofs.Generated", "Wasp.Properties.Facts.C17"], tier)
+    c = Check("C17", ["Wasp.Properties.Facts.Wiring", "Wasp.Properties.C17", "Wasp.Properties.C17E2E", "Wasp.Proofs.Generated", "Wasp.Properties.Facts.C17"], tier)
     c.build()
     samples = []
     scs = [gen_converged(c.rng, c.rng.choice([1, 2]), c.rng.choice([2, 3]), c.rng.choice([12, 18]), {"pub": 8, "sub": 5, "end": 2}) for _ in range(n_of(c, 10, 150))]
@@ -90,14 +95,17 @@ def c17(tier=None):
     scs = brokerlib.corpus(c.rng, ["same-client-id-two-tenants", "same-client-id-overlapping-qos2"])
     scs += [gen_lifecycle(c.rng, c.rng.choice([1, 2]), 2, takeover=0.6) for _ in range(n_of(c, 8, 120))]
     run_scenarios(c, "tenants-shared-client-ids", scs, samples)
+    # wills of a failed node's sessions stay inside their own mount points
+    scs = [brokerlib.gen_nodefail(c.rng, clean=False, mounts=2) for _ in range(n_of(c, 1, 8))]
+    run_scenarios(c, "tenants-node-failure-wills", scs, samples)
     return c.finish(samples=samples, rule="case = one script with clients spread over 2-3 mount points using '#', '+/...' and literal filters, publishes / retained messages / wills, and client identifiers shared across mount points")
 
 
 def c02(tier=None):
-    c = Check("C02", ["Wasp.Properties.C02", "Wasp.Properties.C02Pool", "Wasp.Properties.C02E2E", "Wasp.Properties.Reachable", "Wasp.Properties.C15", "Wasp.Properties.Facts.C02"], tier)
+    c = Check("C02", ["Wasp.Properties.Facts.Wiring", "Wasp.Properties.C02", "Wasp.Properties.C02Pool", "Wasp.Properties.C02E2E", "Wasp.Properties.Reachable", "Wasp.Properties.C15", "Wasp.Properties.Facts.C15", "Wasp.Properties.Facts.C02"], tier)
     c.build()
     samples = []
-    scs = brokerlib.corpus(c.rng, ["first-message", "slow-qos2", "inbound-outbound-id", "ids-return-after-recipient-vanished"])
+    scs = brokerlib.corpus(c.rng, ["first-message", "slow-qos2", "inbound-outbound-id", "ids-return-after-recipient-vanished", "broken-recipient", "late-pubrel-after-timeout"])
     scs += [gen_converged(c.rng, 1, 1, c.rng.choice([10, 14]), {"pub": 10, "sub": 3, "unsub": 0.5, "end": 0.5}) for _ in range(n_of(c, 8, 100))]
     run_scenarios(c, "acked-publish-delivered", scs, samples)
     # acknowledged publishes must reach subscribers whose earlier QoS 1/2 exchanges are slow, time out and are resumed
